@@ -81,7 +81,7 @@ class HRNP(BytesInterface):
         ), f"At least 12-bytes for HRNP required, got {len(data)} bytes instead"
         hrnp_packet_len = int.from_bytes(data[8:10], byteorder="big")
         assert len(data) >= hrnp_packet_len, f"packet seems incomplete"
-        return HRNP(
+        hrnp: HRNP = HRNP(
             header=data[0:1],
             version=data[1:2],
             block_number=data[2],
@@ -92,6 +92,11 @@ class HRNP(BytesInterface):
             checksum=data[10:12],
             data=data[12:hrnp_packet_len],
         )
+        # received checksum must be verified on received bytes, payload (HDAP) gets re-serialized with regenerated checksum
+        hrnp.checksum_correct = hrnp.verify_checksum(
+            checksum=data[10:12], checked_data=data[0:10] + data[12:hrnp_packet_len]
+        )[0]
+        return hrnp
 
     def as_bytes(self, endian: Literal["big", "little"] = "big") -> bytes:
         return (
@@ -121,21 +126,29 @@ class HRNP(BytesInterface):
         )
 
     def verify_checksum(
-        self, checksum: Union[bytes, int] = b"\x00\x00"
+        self,
+        checksum: Union[bytes, int] = b"\x00\x00",
+        checked_data: Optional[bytes] = None,
     ) -> Tuple[bool, bytes]:
-        # checksumed data
-        checked_data: bytes = (
-            self.header
-            + self.version
-            + bytes(
-                [self.block_number, self.opcode.value, self.source, self.destination]
+        if checked_data is None:
+            # checksumed data
+            checked_data = (
+                self.header
+                + self.version
+                + bytes(
+                    [
+                        self.block_number,
+                        self.opcode.value,
+                        self.source,
+                        self.destination,
+                    ]
+                )
+                + self.packet_number.to_bytes(length=2, byteorder="big")
+                + len(self).to_bytes(2, byteorder="big")
             )
-            + self.packet_number.to_bytes(length=2, byteorder="big")
-            + len(self).to_bytes(2, byteorder="big")
-        )
 
-        if self.has_data():
-            checked_data += self.data.as_bytes()
+            if self.has_data():
+                checked_data += self.data.as_bytes()
 
         if len(checked_data) % 2 == 1:
             # add padding byte
